@@ -500,20 +500,33 @@ def fusion_pair_worker(job):
         txs = list(anno.transcripts.keys())
         donor = txs[rng.randrange(len(txs))]
         fus = {}
-        for _ in range(200):
+        for _ in range(300):
             _r.seed(rng.randrange(1 << 30))
             try:
                 f = fake.fake_fusion(anno, genome, donor)
             except Exception:   # noqa
                 continue
-            fus.setdefault(f.attrs['ACCEPTER_TRANSCRIPT_ID'], f)
-            if len(fus) >= 2:
+            fus.setdefault((f.attrs['ACCEPTER_TRANSCRIPT_ID'], int(f.attrs['ACCEPTER_POSITION'])), f)
+            if len({a for a, _p in fus}) >= 2 and len(fus) >= 4:
                 break
-        if len(fus) < 2:
+        by_acc = {}
+        for (a, _p), f in sorted(fus.items()):
+            by_acc.setdefault(a, []).append(f)
+        same = [a for a, fs in sorted(by_acc.items()) if len(fs) >= 2]
+        # half of the pairs: ONE acceptor transcript entered at two different positions (one donor
+        # exon end spliced to two exons of the same partner); the other half: two acceptors
+        if same and (rng.random() < 0.5 or len(by_acc) < 2):
+            a = rng.choice(same)
+            f1, f2 = by_acc[a][0], copy.deepcopy(by_acc[a][1])
+            accs = [a, a]
+            out['stats']['same_acceptor_two_positions'] = 1
+        elif len(by_acc) >= 2:
+            accs = sorted(by_acc)[:2]
+            f1, f2 = by_acc[accs[0]][0], copy.deepcopy(by_acc[accs[1]][0])
+            out['stats']['two_acceptors'] = 1
+        else:
             out['stats']['no_two_acceptors'] = 1
             return out
-        accs = sorted(fus)
-        f1, f2 = fus[accs[0]], copy.deepcopy(fus[accs[1]])
         f2.location = copy.deepcopy(f1.location)
         f2.ref = f1.ref
         f2.id = f"FUSION-{donor}:{int(f1.location.start)}-{accs[1]}:{f2.attrs['ACCEPTER_POSITION']}"
